@@ -32,6 +32,7 @@ type Op struct {
 	Mt      int64  `json:"mt,omitempty"`
 	N       int    `json:"n,omitempty"`
 	Spell   int    `json:"spell,omitempty"` // how the paths are spelled towards the implementation (0 = clean absolute)
+	Zone    int    `json:"zone,omitempty"`   // chtimes: the times are handed over in a fixed zone of this many seconds east of UTC that has no name (as time.Parse yields for "+02:00")
 	SpellB  int    `json:"spellb,omitempty"` // rename: the destination's spelling, chosen independently (-1 = clean absolute)
 	Members []Op   `json:"members,omitempty"`
 }
@@ -63,7 +64,7 @@ func flagStr(f int) string {
 	for _, x := range []struct {
 		b int
 		n string
-	}{{os.O_CREATE, "CREATE"}, {os.O_EXCL, "EXCL"}, {os.O_TRUNC, "TRUNC"}, {os.O_APPEND, "APPEND"}} {
+	}{{os.O_CREATE, "CREATE"}, {os.O_EXCL, "EXCL"}, {os.O_TRUNC, "TRUNC"}, {os.O_APPEND, "APPEND"}, {os.O_SYNC, "SYNC"}} {
 		if f&x.b != 0 {
 			s = append(s, x.n)
 		}
@@ -219,6 +220,10 @@ func execOp(rig *Rig, o Op) Outcome {
 		}
 	case "chtimes":
 		at, mt := time.Unix(0, o.At), time.Unix(0, o.Mt)
+		if o.Zone != 0 {
+			z := time.FixedZone("", o.Zone)
+			at, mt = at.In(z), mt.In(z)
+		}
 		if o.N == -62135596800 { // witness: the zero time.Time (year 1), which nanoseconds since 1970 cannot express
 			at, mt = time.Time{}, time.Time{}
 		}
